@@ -63,6 +63,12 @@ def failing_blocks(k):
               'GotWantException', 'gotwant'))
     B.append(('warns_then_raises', ['>>> import warnings', ">>> warnings.warn('careful %d', RuntimeWarning)" % k, '>>> t(%d)' % k,
                                     ">>> raise ValueError('after the warning')"], [], 3, 'ValueError', 'exception'))
+    # the doctest frame goes on executing clean-up code while the exception unwinds: the failing line is the raising one
+    B.append(('raise_in_try_finally', ['>>> try:', "...     raise ValueError('tf %d')" % k, '... finally:', '...     cleanup = t(%d)' % k, '...     cleanup = 2'], [], 1,
+              'ValueError', 'exception'))
+    B.append(('raise_nonmatching_except', ['>>> try:', '...     t(%d)' % k, "...     raise ValueError('ne')", '... except KeyError:', '...     pass', '... finally:', '...     done = 1'],
+              [], 2, 'ValueError', 'exception'))
+    B.append(('called_code_in_try_finally', ['>>> try:', '...     called(%d)' % k, '... finally:', '...     z = 0'], [], 1, 'KeyError', 'exception'))
     B.append(('traceback_want_mismatch', ['>>> boom(%d)' % k], ['Traceback (most recent call last):', 'KeyError: other'], 1, 'GotWantException', 'gotwant'))
     return B
 
